@@ -10,90 +10,90 @@ Definition CFDivisor_is_effective (self_degrees : dictZ) : bool :=
   (true).
 
 (* chipfiring/CFDivisor.py :: CFDivisor.get_degree   reads ['self_degrees'], writes [], may raise *)
-Definition CFDivisor_get_degree (self_degrees : dictZ) (vertex_name : nat) : option Z :=
+Definition CFDivisor_get_degree (self_degrees : dictZ) (vertex_name : nat) : pyres (unit) Z :=
   let vertex := vertex_name in
   if (negb (d_mem vertex self_degrees)) then
-  None
+  PyExn tt
   else
-  match d_find vertex self_degrees with None => None | Some t1_ =>
-  Some (t1_) end.
+  match d_find vertex self_degrees with None => PyExn tt | Some t1_ =>
+  PyOk (t1_) end.
 
 (* chipfiring/CFDivisor.py :: CFDivisor.lending_move   reads ['self_graph_graph', 'self_degrees'], writes ['self_degrees'], may raise *)
-Definition CFDivisor_lending_move (self_graph_graph : dictD) (self_degrees : dictZ) (vertex_name : nat) : option (dictZ) :=
+Definition CFDivisor_lending_move (self_graph_graph : dictD) (self_degrees : dictZ) (vertex_name : nat) : pyres (dictZ) (dictZ) :=
   let vertex := vertex_name in
   if (negb (d_mem vertex self_graph_graph)) then
-  None
+  PyExn self_degrees
   else
-  match d_find vertex self_graph_graph with None => None | Some t1_ =>
+  match d_find vertex self_graph_graph with None => PyExn self_degrees | Some t1_ =>
   let neighbors := t1_ in
-  match fold_left (fun acc_ neighbor => match acc_ with None => None | Some self_degrees => 
-  match d_find neighbor neighbors with None => None | Some t2_ =>
+  match fold_left (fun acc_ neighbor => match acc_ with PyExn e_ => PyExn e_ | PyOk self_degrees => 
+  match d_find neighbor neighbors with None => PyExn self_degrees | Some t2_ =>
   let valence := t2_ in
-  match d_find neighbor self_degrees with None => None | Some t3_ =>
+  match d_find neighbor self_degrees with None => PyExn self_degrees | Some t3_ =>
   let self_degrees := d_set neighbor (t3_ + valence) self_degrees in
-  match d_find vertex self_degrees with None => None | Some t4_ =>
+  match d_find vertex self_degrees with None => PyExn self_degrees | Some t4_ =>
   let self_degrees := d_set vertex (t4_ - valence) self_degrees in
-  Some self_degrees end end end end) (d_keys neighbors) (Some self_degrees) with None => None | Some self_degrees =>
-  Some self_degrees end end.
+  PyOk self_degrees end end end end) (d_keys neighbors) (PyOk self_degrees) with PyExn e_ => PyExn e_ | PyOk self_degrees =>
+  PyOk self_degrees end end.
 
 (* chipfiring/CFDivisor.py :: CFDivisor.borrowing_move   reads ['self_graph_graph', 'self_degrees'], writes ['self_degrees'], may raise *)
-Definition CFDivisor_borrowing_move (self_graph_graph : dictD) (self_degrees : dictZ) (vertex_name : nat) : option (dictZ) :=
+Definition CFDivisor_borrowing_move (self_graph_graph : dictD) (self_degrees : dictZ) (vertex_name : nat) : pyres (dictZ) (dictZ) :=
   let vertex := vertex_name in
   if (negb (d_mem vertex self_graph_graph)) then
-  None
+  PyExn self_degrees
   else
-  match d_find vertex self_graph_graph with None => None | Some t1_ =>
+  match d_find vertex self_graph_graph with None => PyExn self_degrees | Some t1_ =>
   let neighbors := t1_ in
-  match fold_left (fun acc_ neighbor => match acc_ with None => None | Some self_degrees => 
-  match d_find neighbor neighbors with None => None | Some t2_ =>
+  match fold_left (fun acc_ neighbor => match acc_ with PyExn e_ => PyExn e_ | PyOk self_degrees => 
+  match d_find neighbor neighbors with None => PyExn self_degrees | Some t2_ =>
   let valence := t2_ in
-  match d_find neighbor self_degrees with None => None | Some t3_ =>
+  match d_find neighbor self_degrees with None => PyExn self_degrees | Some t3_ =>
   let self_degrees := d_set neighbor (t3_ - valence) self_degrees in
-  match d_find vertex self_degrees with None => None | Some t4_ =>
+  match d_find vertex self_degrees with None => PyExn self_degrees | Some t4_ =>
   let self_degrees := d_set vertex (t4_ + valence) self_degrees in
-  Some self_degrees end end end end) (d_keys neighbors) (Some self_degrees) with None => None | Some self_degrees =>
-  Some self_degrees end end.
+  PyOk self_degrees end end end end) (d_keys neighbors) (PyOk self_degrees) with PyExn e_ => PyExn e_ | PyOk self_degrees =>
+  PyOk self_degrees end end.
 
 (* chipfiring/CFDivisor.py :: CFDivisor.chip_transfer   reads ['self_degrees'], writes ['self_degrees'], may raise *)
-Definition CFDivisor_chip_transfer (self_degrees : dictZ) (vertex_from_name : nat) (vertex_to_name : nat) (amount : Z) : option (dictZ) :=
+Definition CFDivisor_chip_transfer (self_degrees : dictZ) (vertex_from_name : nat) (vertex_to_name : nat) (amount : Z) : pyres (dictZ) (dictZ) :=
   if (amount <=? 0) then
-  None
+  PyExn self_degrees
   else
   let vertex_from := vertex_from_name in
   let vertex_to := vertex_to_name in
   if (negb (d_mem vertex_from self_degrees)) then
-  None
+  PyExn self_degrees
   else
   if (negb (d_mem vertex_to self_degrees)) then
-  None
+  PyExn self_degrees
   else
-  match d_find vertex_from self_degrees with None => None | Some t1_ =>
+  match d_find vertex_from self_degrees with None => PyExn self_degrees | Some t1_ =>
   let self_degrees := d_set vertex_from (t1_ - amount) self_degrees in
-  match d_find vertex_to self_degrees with None => None | Some t2_ =>
+  match d_find vertex_to self_degrees with None => PyExn self_degrees | Some t2_ =>
   let self_degrees := d_set vertex_to (t2_ + amount) self_degrees in
-  Some self_degrees end end.
+  PyOk self_degrees end end.
 
 (* chipfiring/CFDivisor.py :: CFDivisor.set_fire   reads ['self_graph_graph', 'self_degrees'], writes ['self_degrees'], may raise *)
-Definition CFDivisor_set_fire (self_graph_graph : dictD) (self_degrees : dictZ) (set_order : list nat -> list nat) (vertex_names : list nat) : option (dictZ) :=
+Definition CFDivisor_set_fire (self_graph_graph : dictD) (self_degrees : dictZ) (set_order : list nat -> list nat) (vertex_names : list nat) : pyres (dictZ) (dictZ) :=
   let firing_set_vertices := (@nil nat) in
-  match fold_left (fun acc_ name => match acc_ with None => None | Some firing_set_vertices => 
+  match fold_left (fun acc_ name => match acc_ with PyExn e_ => PyExn e_ | PyOk firing_set_vertices => 
   let vertex := name in
   if (negb (d_mem vertex self_graph_graph)) then
-  None
+  PyExn self_degrees
   else
   let firing_set_vertices := s_add vertex firing_set_vertices in
-  Some firing_set_vertices end) (set_order vertex_names) (Some firing_set_vertices) with None => None | Some firing_set_vertices =>
-  match fold_left (fun acc_ vertex => match acc_ with None => None | Some self_degrees => 
-  match d_find vertex self_graph_graph with None => None | Some t1_ =>
+  PyOk firing_set_vertices end) (set_order vertex_names) (PyOk firing_set_vertices) with PyExn e_ => PyExn e_ | PyOk firing_set_vertices =>
+  match fold_left (fun acc_ vertex => match acc_ with PyExn e_ => PyExn e_ | PyOk self_degrees => 
+  match d_find vertex self_graph_graph with None => PyExn self_degrees | Some t1_ =>
   let neighbors := t1_ in
-  match fold_left (fun acc_ kv_ => match acc_ with None => None | Some self_degrees => let '(neighbor_vertex, valence) := kv_ in
+  match fold_left (fun acc_ kv_ => match acc_ with PyExn e_ => PyExn e_ | PyOk self_degrees => let '(neighbor_vertex, valence) := kv_ in
   if (negb (s_mem neighbor_vertex firing_set_vertices)) then
-  match CFDivisor_chip_transfer self_degrees vertex neighbor_vertex valence with None => None | Some self_degrees =>
-  Some self_degrees end
+  match CFDivisor_chip_transfer self_degrees vertex neighbor_vertex valence with PyExn self_degrees => PyExn self_degrees | PyOk self_degrees =>
+  PyOk self_degrees end
   else
-  Some self_degrees end) neighbors (Some self_degrees) with None => None | Some self_degrees =>
-  Some self_degrees end end end) (set_order firing_set_vertices) (Some self_degrees) with None => None | Some self_degrees =>
-  Some self_degrees end end.
+  PyOk self_degrees end) neighbors (PyOk self_degrees) with PyExn e_ => PyExn e_ | PyOk self_degrees =>
+  PyOk self_degrees end end end) (set_order firing_set_vertices) (PyOk self_degrees) with PyExn e_ => PyExn e_ | PyOk self_degrees =>
+  PyOk self_degrees end end.
 
 (* CFDivisor.firing_move is the class attribute `firing_move = lending_move` *)
 Definition CFDivisor_firing_move := CFDivisor_lending_move.
